@@ -102,6 +102,8 @@ def gen_query(rng):
             limit = rng.choice([1, 2, 5])
         if limit is not None and rng.random() < 0.4:
             offset = rng.choice([1, 2])
+    if limit == 5 and len(fields) % 2 == 0:
+        limit = 0          # LIMIT 0: no rows through either interface (derived from the query, not from the random stream)
     return dict(single=single, fields=fields, filters=filters, order=order, limit=limit, offset=offset, bare_asc=rng.random() < 0.6)
 
 
